@@ -18,7 +18,7 @@ def run(tier, replay=None):
     cap = 2 if tier == "quick" else 8
     rep.set("bounds", {"schemas": "kinds (every representation kind) and catalogue families A and B", "size_vectors": "ladder <= %d per message" % cap,
                        "view_lengths": "every n in 0..len with the buffer ending exactly at a PROT_NONE page",
-                       "ops": "per sub-object: field get/set/get_by_tag/cursor(init) get+set; array view/index/iterate/front/back/strlen_r/fill/assign/size_bytes/raw()-derived view index+fill+iterate; composite view/size_bytes/members; group view/size/header/resize/size_bytes/begin/end/iterate/front/back/operator[]/iterator arithmetic/cursor_range; entry size_bytes; data view/size/size_bytes/iterate/index/front/back/data/resize/assign_range/assign/pop+push/erase+insert; message header/fill/size_bytes/visit/cursor traversal/size_bytes_checked",
+                       "ops": "per sub-object: field get/set/get_by_tag/cursor(init) get+set; array view/index/iterate/front/back/strlen_r/strlen (char arrays)/fill/assign/size_bytes/raw()-derived view index+fill+iterate; composite view/size_bytes/members; group view/size/header/resize/size_bytes/begin/end/iterate/front/back/operator[]/iterator arithmetic/cursor_range; entry size_bytes; data view/size/size_bytes/iterate/index/front/back/data/resize/assign_range/assign/pop+push/erase+insert; message header/fill/size_bytes/visit/cursor traversal/size_bytes_checked",
                        "header_steering": "every blockLength/numInGroup/length instance overwritten with fit-1, fit+1, max/2+1, max at n = len (only 'no silent outside access' is checked there)",
                        "cells": [cxx.cell_name(c) for c in cells]})
     fields = ("ops", "ok", "handler", "timeouts_not_judged", "faults_below_view_start_not_judged")
